@@ -923,6 +923,16 @@ func (m *model) shrink(r *mref, size int) {
 		m.unregister(r, strconv.Itoa(i), l.Index(i))
 		l.Index(i).Set(zero)
 	}
+	if m.df.cacheNotValidated {
+		// the index-based cache may be longer than the slice (after a Go-side reslice): everything at
+		// index >= size is detached, whatever it refers to
+		for k, c := range r.reg {
+			if i, ok := parseIdx(k); ok && i >= size {
+				m.detach(c)
+				delete(r.reg, k)
+			}
+		}
+	}
 	l.SetLen(size)
 }
 
@@ -1281,8 +1291,8 @@ func (m *model) sortInPlace(r *mref) {
 	}
 	r.reg = map[string]*mref{}
 	for k, c := range oldReg {
-		if _, ok := parseIdx(k); !ok {
-			r.reg[k] = c
+		if i, ok := parseIdx(k); !ok || i >= n {
+			r.reg[k] = c // not an element that takes part in the sort
 		}
 	}
 	for ni, oi := range perm {
